@@ -15,6 +15,7 @@ from __future__ import annotations
 
 import concurrent.futures as cf
 import math
+import os
 import random
 import re
 import warnings
@@ -81,7 +82,18 @@ def ravel(tree) -> np.ndarray:
 # ----------------------------------------------------------------------------------------------------------------
 # TLC: abstract model
 # ----------------------------------------------------------------------------------------------------------------
-MODEL_INVARIANTS = ["Total", "ModeratePositiveFinite", "NanTolerancePropagates", "GuardBoundsStep", "ArithLawsHold", "Export", "ExportArith"]
+MODEL_INVARIANTS = ["Total", "ModeratePositiveFinite", "NanTolerancePropagates", "GuardBoundsStep", "GuardedDt0PositiveFinite", "ArithLawsHold", "Export", "ExportArith"]
+
+# Which code Part A of Dt0.tla transcribes.  Default: the repaired tree (repo patches c18_dt0_guard.diff and
+# c18_dt0_adaptive_weighted.diff).  VERIF_C18_CODE=pinned|guard|weighted selects the other combinations (experiments on
+# scratch worktrees only).
+_CODE = os.environ.get("VERIF_C18_CODE", "patched")
+CODE_CONSTS = {
+    "patched": {"GuardedDt0": True, "WeightedNorms": True},
+    "guard": {"GuardedDt0": True, "WeightedNorms": False},
+    "weighted": {"GuardedDt0": False, "WeightedNorms": True},
+    "pinned": {"GuardedDt0": False, "WeightedNorms": False},
+}[_CODE]
 _ST_RE = re.compile(r"st = \[(.*?)\]", re.S)
 _FIELD_RE = re.compile(r'(\w+) \|-> "(\w+)"')
 
@@ -93,7 +105,7 @@ def _tkey(t: dict):
 def _run_model(name, invariants, timeout_s=600):
     wd = tlc.make_workdir()
     try:
-        mod = tlc.write_model(wd, name, "Dt0", {"Instances": []}, spec="SpecAbs", invariants=invariants, check_deadlock=False)
+        mod = tlc.write_model(wd, name, "Dt0", {"Instances": [], **CODE_CONSTS}, spec="SpecAbs", invariants=invariants, check_deadlock=False)
         return tlc.run_tlc(wd, mod, workers=8, timeout_s=timeout_s, heap="3g")
     finally:
         tlc.cleanup(wd)
@@ -389,7 +401,7 @@ HNW_LAWS = ["HnwPositive", "HnwGuardValue", "HnwBounded", "HnwUnitInvariant", "H
 
 
 def eval_exact(instances):
-    return exact.eval_instances("Dt0", [dict(i) for i in instances], invariants=HNW_LAWS + ["CheckAndPrint"], batch=40)
+    return exact.eval_instances("Dt0", [dict(i) for i in instances], invariants=HNW_LAWS + ["CheckAndPrint"], batch=40, extra_consts=dict(CODE_CONSTS))
 
 
 def call_instance(inst):
